@@ -224,6 +224,24 @@ CheckReleaseAll(props, outPre, post, ev) ==
          \cup (IF "C02" \in props THEN Tag(PressedIn(ev) # {}, "C02c-releaseall") ELSE {}),
    a |-> Tag(ev # <<>>, "RA-events")]
 
+(* Auxiliary invariants of the mapper's internal state.  They are not listed properties: they   *)
+(* document the design of the bookkeeping (what every step may assume about the seven fields)  *)
+(* and are reported as AUX lines, never as violations.                                         *)
+NoDupS(s) == \A i, j \in 1..Len(s): s[i] = s[j] => i = j
+Aux(layout, st) ==
+  Tag(~NoDupS(st.input), "AUX-input-has-duplicates")
+  \cup Tag(~NoDupS(st.pass), "AUX-pass-has-duplicates")
+  \cup Tag(~NoDupS(st.mapped), "AUX-mapped-has-duplicates")
+  \cup Tag(~NoDupS(st.absorbed), "AUX-absorbed-has-duplicates")
+  \cup Tag(SeqSet(st.pass) \cap SeqSet(st.mapped) # {}, "AUX-key-both-passthrough-and-mapped")
+  \cup Tag(\E i \in 1..Len(st.active): ~(SeqSet(st.active[i].from) \subseteq SeqSet(st.input)), "AUX-active-mapping-with-unheld-trigger")
+  \cup Tag(~NoDupS(st.active), "AUX-mapping-active-twice")
+  \cup Tag(\E i \in 1..Len(st.active): ~InSeq(layout, st.active[i]), "AUX-active-mapping-not-in-layout")
+  \cup Tag(~(SeqSet(st.mapped) \subseteq UNION {SeqSet(st.active[i].to): i \in 1..Len(st.active)}), "AUX-mapped-key-without-active-mapping")
+  \cup Tag(~(SeqSet(st.pass) \subseteq SeqSet(st.input)), "AUX-passthrough-key-not-held")
+  \cup Tag(~(SeqSet(st.absorbed) \subseteq UNION {SeqSet(layout[i].absorbing): i \in 1..Len(layout)}), "AUX-absorbed-key-not-in-any-absorbing-list")
+  \cup Tag(st.abstrig = <<>> /\ st.absorbed # <<>>, "AUX-absorbed-keys-without-trigger")
+
 MonNext(props, layout, pre, physPre, mon, e, post) ==
   LET physPost == PhysPost(physPre, e)
       ignored == Ignored(pre, e)
